@@ -117,10 +117,13 @@ type c02session struct {
 	Ops    []c02op
 	Name   []byte
 	Banner string // "banner.jpg" or "-" (none): both worlds of a case are configured alike
+	// Preserve: the server keeps the resource and information forks of uploads in side files (both worlds alike)
+	Preserve bool
 }
 
 func c02genSession(rt *rapid.T) c02session {
 	s := c02session{Flow: rapid.SampledFrom([]string{"123", "15"}).Draw(rt, "flow"), Name: []byte("sess"), Banner: rapid.SampledFrom([]string{"-", "banner.jpg"}).Draw(rt, "banner")}
+	s.Preserve = rapid.Bool().Draw(rt, "preserveResourceForks")
 	id := uint32(10)
 	nextID := func() uint32 { id++; return id }
 	req := func(i int) hlref.Tran {
@@ -274,7 +277,7 @@ func c02fixture(w *hlsim.World) {
 // Write per message).
 func c02run(rt *rapid.T, s c02session, mk func(kind string) hlsim.Splitter) (o c02obs) {
 	news := "Categories:\n    Seed:\n        Type: [0, 3]\n        Name: Seed\n        Articles: {}\n        SubCats: {}\n"
-	opt := hlsim.Options{Agreement: "the agreement", Board: "old board\r", NewsYAML: news, BannerFile: s.Banner,
+	opt := hlsim.Options{Agreement: "the agreement", Board: "old board\r", NewsYAML: news, BannerFile: s.Banner, PreserveResourceForks: s.Preserve,
 		Accounts: []hlsim.AccountSpec{acct("admin", "Admin", "adminpw", allAccess), acct("obs", "Obs", "obspw", allAccess)}}
 	inWorld(rt, opt, func(rt *rapid.T, w *hlsim.World) {
 		c02fixture(w)
